@@ -16,6 +16,14 @@ Client program (one handle and one iterator per thread; a thread is a sequence o
 `der` (`*it`), `rel` (destroy the handle), `push front emplace v`, `erase adv` (`it = h->erase(it)`, or with the result dropped), and
 finally `dtor` (list destructor; client obligation: no live handle).
 
+`erase` allocates and constructs its zombie record BEFORE it flags / unlinks the node (so that a failing allocation
+leaves the list untouched), then unlinks, then publishes the record on the log.
+
+Allocation failures: the allocator may throw instead of allocating (`afl true` for a log record, `afl false` for a node) —
+at the lazy registration of a handle (`call k, afl, exc k`: nothing happened, the handle is still unregistered), in
+`push_* / emplace_*` under the mutex (`mlk, afl, mul, exc`) and in `erase` right after the `deleted` flag has been read
+(`… pldDel, afl, mul, exc`): in all three cases nothing has been changed when the exception reaches the client.
+
 The model does NOT check the allocation ledger or liveness of the blocks it touches: the ledger
 (`nled`, `rled`) is ghost state updated by `alo / con / des / fre`, and the theorems (C13, C05) state
 that every accepted `des / fre / access` hits a block in the right ledger state.
